@@ -302,6 +302,11 @@ _NEVER_NONE_FUNCS = {'str', 'int', 'float', 'len', 'list', 'tuple', 'dict', 'set
                      'min', 'max', 'sum', 'hex', 'chr', 'ord', 'isinstance', 'hasattr', 'format', 'frozenset', 'zip', 'map', 'filter', 'divmod'}
 
 
+# methods of the GDB Python API that return a value object or raise, never None (gdb.Frame.read_var, gdb.parse_and_eval, gdb.lookup_type,
+# gdb.Value.cast / dereference): a refactoring that threads such a value through an Optional parameter must not create a "was None" path
+_GDB_VALUE_METHODS = {'read_var', 'parse_and_eval', 'lookup_type', 'dereference'}
+
+
 def _never_none(sym):
     """terms whose value cannot be None: results of str / container methods and of value-building builtins, displays, arithmetic"""
     if isinstance(sym, (ast.List, ast.Tuple, ast.Dict, ast.Set, ast.ListComp, ast.DictComp, ast.SetComp, ast.GeneratorExp, ast.JoinedStr, ast.BinOp, ast.Compare)):
@@ -309,7 +314,7 @@ def _never_none(sym):
     if isinstance(sym, ast.Constant):
         return sym.value is not None
     if isinstance(sym, ast.Call):
-        if isinstance(sym.func, ast.Attribute) and sym.func.attr in _STR_RESULT_METHODS:
+        if isinstance(sym.func, ast.Attribute) and (sym.func.attr in _STR_RESULT_METHODS or sym.func.attr in _GDB_VALUE_METHODS):
             return True
         if isinstance(sym.func, ast.Name) and sym.func.id in _NEVER_NONE_FUNCS:
             return True
@@ -398,6 +403,7 @@ class PathSim:
         self.repo = repo
         self.func = func
         self.expand_maps = expand_maps          # [f(x) for x in X] without a filter is expanded element by element too
+        self._itab_cache = {}
         self.stable_attrs = frozenset(stable_attrs)     # heap paths (texts) assumed not to be written by the opaque calls of this function
         self.cg = repo.callgraph()
         self.inline = set(inline)
@@ -1203,6 +1209,10 @@ class PathSim:
                 hv = s.heap.get(norm(sym))
                 if hv is not None and (not _is_mutable_display(hv) or (norm(sym) in self.stable_attrs and (hasattr(hv, '_elts') or isinstance(hv, ast.List)))):
                     out.append((hv, s, None))
+                    continue
+                tbl = self._new_instance_table(frame[0], e, b) if isinstance(getattr(e, 'ctx', None), ast.Load) else None
+                if tbl is not None:
+                    out.append((tbl, s, None))
                 else:
                     sym._ep = s.ep
                     out.append((sym, s, None))
@@ -1370,6 +1380,123 @@ class PathSim:
             return None
         d._module = r[3]
         return d
+
+    def _new_instance_table(self, f, e, base):
+        """`x.attr` where attr is an instance attribute that did not exist on the pinned tree, is assigned exactly once - a tuple / list display of
+        table entries and plain records, at the top level of the class's __init__ - and is nowhere else stored to, deleted or mutated: a table on
+        the instance.  Its value is the display with `self` standing for x and the records written as the tuples they are."""
+        key = (id(f), id(e))
+        if key in self._itab_cache:
+            proto = self._itab_cache[key]
+        else:
+            proto = self._itab_cache[key] = self._instance_table_proto(f, e)
+        if proto is None:
+            return None
+        cls, disp, selfname = proto
+        out = []
+        for x in disp.elts:
+            y = self._table_value(cls, x, selfname, base)
+            if y is None:
+                return None
+            out.append(y)
+        res = ast.Tuple(elts=out, ctx=ast.Load())
+        return res
+
+    def _table_value(self, cls, x, selfname, base, depth=0):
+        if depth > 3:
+            return None
+        if isinstance(x, ast.Constant):
+            return x
+        if isinstance(x, ast.Attribute) and isinstance(x.value, ast.Name) and x.value.id == selfname:
+            return ast.Attribute(value=base, attr=x.attr, ctx=ast.Load())
+        if isinstance(x, (ast.Name, ast.Attribute)):
+            r = self.repo.resolve_expr_static(cls.module, x)
+            return x if r and r[0] in ('func', 'class', 'classattr') else None
+        if isinstance(x, ast.Tuple):
+            elts = [self._table_value(cls, y, selfname, base, depth + 1) for y in x.elts]
+            return None if any(y is None for y in elts) else ast.Tuple(elts=elts, ctx=ast.Load())
+        if isinstance(x, ast.Call) and isinstance(x.func, (ast.Name, ast.Attribute)) and not any(isinstance(a, ast.Starred) for a in x.args):
+            r = self.repo.resolve_expr_static(cls.module, x.func)
+            if not (r and r[0] == 'class'):
+                return None
+            flds = r[1].record_fields()
+            if flds is None:
+                return None
+            names = [n_ for n_, _ in flds]
+            vals = dict(zip(names, x.args))
+            for k in x.keywords:
+                if k.arg is None or k.arg not in names or k.arg in vals:
+                    return None
+                vals[k.arg] = k.value
+            if set(vals) != set(names) or len(x.args) > len(names):
+                return None
+            elts = [self._table_value(cls, vals[n_], selfname, base, depth + 1) for n_ in names]
+            if any(y is None for y in elts):
+                return None
+            t = ast.Tuple(elts=elts, ctx=ast.Load())
+            t._record = names
+            return t
+        return None
+
+    def _instance_table_proto(self, f, e):
+        try:
+            ts = self.repo.expr_types(f, e.value)
+        except Exception:
+            return None
+        insts = [t for t in ts if t and t[0] == 'inst']
+        if len(ts) != 1 or len(insts) != 1:
+            return None
+        cls = insts[0][1]
+        _canon_params(f)
+        prof = (_CANON or {}).get('attr_profiles', {})
+        known = None
+        for c in cls.mro() if hasattr(cls, 'mro') else [cls]:
+            q = getattr(c, 'canon_qual', None) or c.qual
+            if q in prof:
+                known = (known or set()) | set(prof[q])
+        if known is None or e.attr in known or e.attr in cls.class_attrs or cls.find_method(e.attr) is not None:
+            return None
+        init = cls.methods.get('__init__')
+        if init is None or not init.params():
+            return None
+        selfname = init.params()[0]
+        the = None
+        for g in self.repo.all_funcs():
+            for n in g.body_nodes():
+                if isinstance(n, ast.Attribute) and n.attr == e.attr:
+                    par = getattr(n, '_parent', None)
+                    if isinstance(n.ctx, (ast.Store, ast.Del)):
+                        if g is init and the is None and isinstance(par, ast.Assign) and len(par.targets) == 1 and par.targets[0] is n and par in init.node.body \
+                                and isinstance(n.value, ast.Name) and n.value.id == selfname:
+                            the = par
+                            continue
+                        return None
+                    if isinstance(par, ast.Attribute) and par.value is n and par.attr in MUTATORS:
+                        return None
+                    if isinstance(par, ast.AugAssign) and par.target is n:
+                        return None
+                    if isinstance(par, ast.Subscript) and par.value is n and isinstance(par.ctx, (ast.Store, ast.Del)):
+                        return None
+                elif isinstance(n, ast.Call) and isinstance(n.func, ast.Name) and n.func.id in ('setattr', 'delattr') and len(n.args) >= 2 \
+                        and isinstance(n.args[1], ast.Constant) and n.args[1].value == e.attr:
+                    return None
+        if the is None or not isinstance(the.value, (ast.Tuple, ast.List)) or not (0 < len(the.value.elts) <= 16) or any(isinstance(x, ast.Starred) for x in the.value.elts):
+            return None
+        # the entries may name other attributes of the instance only when those are assigned before the table, at the top level of __init__
+        before = set()
+        for st_ in init.node.body:
+            if st_ is the:
+                break
+            if isinstance(st_, (ast.Assign, ast.AnnAssign)):
+                for t_ in (st_.targets if isinstance(st_, ast.Assign) else [st_.target]):
+                    if isinstance(t_, ast.Attribute) and isinstance(t_.value, ast.Name) and t_.value.id == selfname:
+                        before.add(t_.attr)
+        for x in ast.walk(the.value):
+            if isinstance(x, ast.Name) and x.id == selfname:
+                par = getattr(x, '_parent', None)
+                if not (isinstance(par, ast.Attribute) and par.value is x and par.attr in before):
+                    return None
+        return (cls, the.value, selfname)
 
     def _is_record_ctor(self, f, v):
         if isinstance(v, ast.Call) and isinstance(v.func, (ast.Name, ast.Attribute)):
@@ -1788,6 +1915,9 @@ class PathSim:
                 out.append((None, s, sig))
                 continue
             # a substituted local may itself be a boolean expression: evaluate structurally
+            while isinstance(sym, ast.Call) and isinstance(sym.func, ast.Name) and sym.func.id == 'bool' and len(sym.args) == 1 and not sym.keywords \
+                    and not isinstance(sym.args[0], ast.Starred) and self.repo.lookup(frame[0].module, 'bool') is None:
+                sym = sym.args[0]           # bool(X) is true exactly when X is
             if isinstance(sym, ast.Constant):
                 out.append((bool(sym.value), s, None))
             elif _literal_elts(sym) is not None and (hasattr(sym, '_elts') or isinstance(sym, (ast.List, ast.Tuple, ast.Name))):
@@ -1831,6 +1961,9 @@ class PathSim:
         if isinstance(it, ast.Name):
             v = st.env.get((frame[1], it.id))
             return v is not None and hasattr(v, '_elts')
+        if isinstance(it, ast.Call) and isinstance(it.func, ast.Name) and it.func.id in ('enumerate', 'reversed', 'list', 'tuple') and it.args and not it.keywords \
+                and self.repo.lookup(frame[0].module, it.func.id) is None:
+            return self._iter_known_from_comp(it.args[0], st, frame)        # enumerate(xs) of a list known element by element is known pair by pair
         return False
 
     def _ev_filtered_comp(self, e, st, frame):
@@ -2114,6 +2247,25 @@ class PathSim:
 
     def _typed_never_none(self, sym):
         """a call all of whose possible callees are annotated to return an instance of a repository class (not Optional, not None)"""
+        if isinstance(sym, ast.Subscript) and isinstance(sym.slice, ast.Constant) and isinstance(sym.slice.value, int) and not isinstance(sym.slice.value, bool) \
+                and isinstance(sym.value, ast.Call) and getattr(sym.value, '_site', None) is not None and not getattr(sym.value._site, 'prop', False):
+            # f(..)[k] where every callee is annotated (Optional) Tuple[.., T_k, ..] with T_k one of the scalar builtins: an element of such a tuple is never None
+            targets = self.cg.targets(sym.value._site)
+            if not targets or sym.value._site.kind == 'ctor':
+                return False
+            for g in targets:
+                ann = g.node.returns if not g.is_module_body else None
+                if isinstance(ann, ast.Subscript) and norm(ann.value).split('.')[-1] == 'Optional':
+                    ann = ann.slice
+                if not (isinstance(ann, ast.Subscript) and norm(ann.value).split('.')[-1] in ('Tuple', 'tuple') and isinstance(ann.slice, ast.Tuple)):
+                    return False
+                elts = ann.slice.elts
+                k = sym.slice.value
+                if any(isinstance(x, ast.Constant) and x.value is Ellipsis for x in elts) or not (-len(elts) <= k < len(elts)):
+                    return False
+                if not (isinstance(elts[k], ast.Name) and elts[k].id in ('str', 'int', 'float', 'bool', 'bytes')):
+                    return False
+            return True
         site = getattr(sym, '_site', None)
         if not isinstance(sym, ast.Call) or site is None or getattr(site, 'prop', False):
             return False
